@@ -112,6 +112,19 @@ def seeded(w):
             if p.returncode != 0:
                 log("seeded %-8s patch no longer applies to HEAD (skipped)" % name)
                 continue
+            # does the change still break anything on this HEAD?  (a later fix: commit may have made it harmless: its own
+            # demonstration then passes, and there is nothing left to detect)
+            demo = os.path.join(root, name, "demo_test.go")
+            if os.path.exists(demo):
+                import shutil
+                shutil.copy(demo, os.path.join(wt, "zz_seeded_demo_test.go"))
+                env = dict(os.environ, GOFLAGS="-mod=mod", GOPROXY="off", GOSUMDB="off", GOTOOLCHAIN="local")
+                pd = subprocess.run(["go", "test", "-vet=off", "-count=1", "-run", "TestSeeded", "."], cwd=wt, env=env, capture_output=True, text=True)
+                os.remove(os.path.join(wt, "zz_seeded_demo_test.go"))
+                shutil.rmtree(os.path.join(wt, "data"), ignore_errors=True)
+                if pd.returncode == 0:
+                    log("seeded %-8s its own demonstration passes on this HEAD: made harmless by a later fix (skipped)" % name)
+                    continue
             which = [pid] + [c for c in meta.get("checks_run", {}) if c != pid]
             hit = None
             for c in which:
